@@ -56,6 +56,44 @@ func init() {
 			}
 			return ""
 		})
+		// the same encoder met for the first time with a value that needs no table at all (NaN, an infinity, a
+		// negative number, zero): whatever the first call skips must still be there for the second
+		for _, sp := range []struct {
+			name string
+			bits uint32
+		}{{"NaN", 0x7FC00000}, {"+Inf", 0x7F800000}, {"-1", 0xBF800000}, {"-0", 0x80000000}, {"2", 0x40000000}} {
+			sp := sp
+			ev.RegisterProbe(e.name+" first called with "+sp.name, func() string {
+				var pn bool
+				var msg string
+				func() {
+					defer func() {
+						if r := recover(); r != nil {
+							pn, msg = true, fmt.Sprint(r)
+						}
+					}()
+					e.fn(math.Float32frombits(sp.bits))
+				}()
+				if pn {
+					return fmt.Sprintf("%s(%s) panicked: %s", e.name, sp.name, msg)
+				}
+				for _, b := range []uint32{0x3F000000, 0x3F7FFFFF, 0x3F800000, 0x3A83126F} {
+					var k, w string
+					func() {
+						defer func() {
+							if r := recover(); r != nil {
+								k, w = "panic", fmt.Sprintf("%s(%g) after a first call with %s panicked: %v", e.name, math.Float32frombits(b), sp.name, r)
+							}
+						}()
+						k, w = e.point(b)
+					}()
+					if k != "" {
+						return w
+					}
+				}
+				return ""
+			})
+		}
 	}
 }
 
